@@ -61,3 +61,29 @@ fire("C10", "keys left as NumPy rows", X, "all_coords = [tuple(row) for row in i
 fire("C10", "dtype helper wrong for 2", X, "            return numpy.dtype(numpy.uint16)", "            return numpy.dtype(numpy.uint32)", "R-C10-c")
 fire("C10", "lengths in a different key order", X, "[len(entries[coords]) for coords in list_index]", "[len(entries[coords]) for coords in sorted(list_index)]", None)
 silent("C10", "twin: rename loop variable", X, "        for i in list_index:\n            arr = entries[i]", "        for key in list_index:\n            arr = entries[key]")
+
+# ---------------------------------------------------------------- C17
+FF, XF, CC, XC = "ffuncs.py", "xfuncs.py", "ccubes.py", "xcubes.py"
+fire("C17", "ffunc_count: drop weights.copy()", FF, "            weights = weights.copy()\n", "", "R-C17-a")
+fire("C17", "ffunc_sum: drop summables.copy()", FF, "            summables = summables.copy()\n", "            pass\n", "R-C17-a", count=0)
+fire("C17", "ffunc_mean: drop summables.copy()", FF, "            summables = summables.copy()\n", "            pass\n", "R-C17-a", count=1)
+fire("C17", "xfunc_count: drop weights.copy()", XF, "            weights = weights.copy()\n            weights[~validity] = 0", "            weights[~validity] = 0", "R-C17-a")
+fire("C17", "xfunc_sum: drop summables.copy()", XF, "            summables = summables.copy()\n", "            pass\n", "R-C17-a", count=0)
+fire("C17", "xfunc_mean: drop summables.copy()", XF, "            summables = summables.copy()\n", "            pass\n", "R-C17-a", count=1)
+fire("C17", "xfunc_quantile: drop weights.copy()", XF, "                weights = weights.copy()\n                weights[neg_weights] = 0", "                weights[neg_weights] = 0", "R-C17-a")
+fire("C17", "xfunc_covariance: drop weights.copy()", XF, "            weights = weights.copy()\n            weights[~weights_validity] = NaN", "            weights[~weights_validity] = NaN", "R-C17-a")
+fire("C17", "xfunc_stddev: astype(float, copy=False)", XF, "        summables = summables.astype(float)\n        summables = summables.copy()\n", "        summables = summables.astype(float, copy=False)\n", "R-C17-a")
+fire("C17", "as_separate_validity: nan_to_num in place", FF, "        arr = numpy.asarray(arr)\n        validity = ~numpy.isnan(arr)", "        arr = numpy.asarray(arr)\n        validity = ~numpy.isnan(arr)\n        numpy.nan_to_num(arr, copy=False)", "R-C17-a")
+fire("C17", "cache regions on the aggregator", FF, "        sums = numpy.zeros(shape, dtype=dtype)\n        sums[cube.corner] = numpy.nansum(self.summables, axis=0)", "        if getattr(self, '_sums', None) is None:\n            self._sums = numpy.zeros(shape, dtype=dtype)\n        sums = self._sums\n        sums[cube.corner] = numpy.nansum(self.summables, axis=0)", None)
+fire("C17", "xfunc scratch array written in fill", XF, "            sums[:] = numpy.nansum(self.summables, axis=0)\n            valid_counts[:] = numpy.count_nonzero", "            self.summables[:] = self.summables\n            sums[:] = numpy.nansum(self.summables, axis=0)\n            valid_counts[:] = numpy.count_nonzero", "R-C17-b")
+fire("C17", "column_stack shifts the caller's index", I, "            ii = ii.copy()\n            ii.shift_common(new_common)", "            ii.shift_common(new_common)", "R-C17-a")
+fire("C17", "to_array pops from the mapping", I, "            output = numpy.full(self.shape, mapping.get(self.common, 0), dtype=dtype)", "            output = numpy.full(self.shape, mapping.pop(self.common, 0), dtype=dtype)", "R-C17-a")
+fire("C17", "collapsed sorts the caller's precedence", I, "        default = precedence[-1]\n", "        precedence.sort()\n        default = precedence[-1]\n", "R-C17-a")
+fire("C17", "xcube.__init__ keeps dims but strided_dims multiplies in place", XC, "            sd = dim.astype(self.mintype)\n            if m != 1:\n                sd = sd * m", "            sd = dim.astype(self.mintype, copy=False)\n            if m != 1:\n                sd *= m", "R-C17-b")
+fire("C17", "module-level option written", I, "        if len(self) > _printoptions[\"threshold\"]:", "        _printoptions[\"last\"] = len(self)\n        if len(self) > _printoptions[\"threshold\"]:", "R-C17-b")
+silent("C17", "twin: ffunc_valid_count validity.copy() removed (source already fresh)", FF, "            countables = validity.copy()", "            countables = validity")
+silent("C17", "twin: xfunc_stddev second copy removed (astype is fresh)", XF, "        summables = summables.copy()\n        summables[~validity] = float(\"nan\")", "        summables[~validity] = float(\"nan\")")
+silent("C17", "twin: xfunc_corrcoef copy after astype removed", XF, "        self.arr = arr.astype(float).copy()\n        self.arr[~validity] = NaN\n        self.validity = validity\n        if self.validity.ndim > 1:\n            # if self.ignore_missing then we want to keep only complete cases,\n            # like R's `use=na.or.complete`.\n            self.validity = numpy.all(\n                validity.T, axis=tuple(d for d in range(self.validity.ndim) if d != 1)\n            )\n        self.weights = weights\n        self.ignore_missing = ignore_missing\n        self.return_missing_as = return_missing_as\n        if isinstance(self.return_missing_as, tuple):\n            self.null = self.return_missing_as[0]\n        else:\n            self.null = self.return_missing_as\n\n    def get_initial_regions(self, cube):\n        \"\"\"Return empty NumPy arrays to fill.\"\"\"\n        shape = cube.shape + self.shape\n        if not shape:\n            shape = (1,)\n        corrcoefs", "        self.arr = arr.astype(float)\n        self.arr[~validity] = NaN\n        self.validity = validity\n        if self.validity.ndim > 1:\n            # if self.ignore_missing then we want to keep only complete cases,\n            # like R's `use=na.or.complete`.\n            self.validity = numpy.all(\n                validity.T, axis=tuple(d for d in range(self.validity.ndim) if d != 1)\n            )\n        self.weights = weights\n        self.ignore_missing = ignore_missing\n        self.return_missing_as = return_missing_as\n        if isinstance(self.return_missing_as, tuple):\n            self.null = self.return_missing_as[0]\n        else:\n            self.null = self.return_missing_as\n\n    def get_initial_regions(self, cube):\n        \"\"\"Return empty NumPy arrays to fill.\"\"\"\n        shape = cube.shape + self.shape\n        if not shape:\n            shape = (1,)\n        corrcoefs")
+silent("C17", "twin: quantile dead-branch copy removed (dtype is never the type object float)", XF, "            arr = arr.copy()\n        arr[~validity] = NaN", "            pass\n        arr[~validity] = NaN")
+silent("C17", "twin: copy via numpy.array", FF, "            weights = weights.copy()\n", "            weights = numpy.array(weights)\n")
+silent("C17", "twin: copy via arithmetic", FF, "            summables = summables.copy()\n", "            summables = summables * 1\n", count=0)
